@@ -23,7 +23,8 @@ ASSUMPTIONS = ["virtual clock on the 1/1024 s grid",
 TRUSTED = ["thread scheduling / Lock / Condition of UdpServerThread, Twisted's reactor, the OS socket layer beyond the measured port-0 rule, and the CPU cost of per-hello key generation are not modelled",
            "an exception that escapes the real loop is a correspondence failure (model continues, thread died) reported with the oracle's replay; the theorem cannot exhibit it"]
 
-BLOCKED = ["10.66.6.6", "10.66.6.7"]
+BLOCKED = ["10.66.6.6", "10.66.6.7", "::ffff:10.77.7.7", "2001:db8::bad"]     # the block list holds host strings as the socket reports them
+OTHER_SPELLINGS = ["::ffff:10.66.6.6", "10.77.7.7", "::ffff:10.2.0.1", "2001:db8::bad:1", "::1"]   # NOT blocked: a different host string
 
 
 def gate_cases(run):
@@ -43,7 +44,7 @@ def gate_cases(run):
         if ln >= 20 and rng.random() < 0.8:
             b[:4] = rng.choice([b"FSOS", b"FSOS", b"FSOC", b"FSOX", b"fsos"])
             b[12] = rng.choice([0, 1, 2, 3, 4, 5, 6, 7, 8, 255])
-        ip = rng.choice(BLOCKED + ["10.2.0.1", "10.66.6.8", "10.66.6.60"])
+        ip = rng.choice(BLOCKED + ["10.2.0.1", "10.66.6.8", "10.66.6.60"] + OTHER_SPELLINGS)
         raws.append(((ip, rng.choice([0, 1, 5000])), bytes(b)))
     bl = set(BLOCKED)
     lg0 = __import__("logging").getLogger("mpgameserver")
@@ -200,7 +201,7 @@ def world(run, rng, idx, sizes, hello):
     honest = [w.add_client(("10.1.0.%d" % (i + 1), 5000 + i)) for i in range(rng.choice([1, 2]))]
     sent, nsteps = {id(r): [] for r in honest}, rng.randrange(60, 120) * (2 if run.thorough() else 1)
     hostile_addrs = [("10.9.%d.%d" % (i // 200, i % 200 + 1), rng.choice([0, 1, 53, 5000, 65535])) for i in range(40)]
-    hostile_addrs += [(b, 4444) for b in BLOCKED] + [("10.9.9.9", 0)]
+    hostile_addrs += [(b, 4444) for b in BLOCKED] + [("10.9.9.9", 0)] + [(b, 4445) for b in OTHER_SPELLINGS]
     inb, outb, connected_once = {}, {}, set()
     died_at = None
     try:
